@@ -10,8 +10,8 @@ import Mathlib.Tactic.Positivity
 /-!
 # C06 (overlap part) — the Slater overlaps of `diat_overlap_PM6_SP.py`
 
-Model: `PyseqmVerif/Model/Overlap.lean`.  All theorems are over `ℝ` with `Real.exp`, `Real.sqrt`,
-`Real.rpow`, `|·|` and `x ^ n`.
+Model: `PyseqmVerif/Model/Overlap.lean` (mirrors `aintgs`, `bintgs`, `SET` and the six `jcall` branches).
+All theorems are over `ℝ` with `Real.exp`, `Real.sqrt`, `Real.rpow`, `|·|` and `x ^ n`.
 
 1. auxiliary integrals `A_k`: `aintgs_recurrence` (the integration-by-parts identity
    `x·A_k = e^{-x} + k·A_{k-1}` of `∫₁^∞ ξ^k e^{-xξ} dξ`), `aintgs_closed_form`.
@@ -19,16 +19,24 @@ Model: `PyseqmVerif/Model/Overlap.lean`.  All theorems are over `ℝ` with `Real
    `x·B_k = k·B_{k-1} + ((-1)^k e^{x} − e^{-x})`, the identity of `∫₋₁^¹ η^k e^{-xη} dη`), `bintgs_parity`
    (`B_k(−x) = (−1)^k B_k(x)`, all three regimes), `bintgs_series_is_truncated_maclaurin`,
    `bintgs_at_zero`, and the FINDING `bintgs_series_violates_exact_recurrence`: every family obeying
-   the integration-by-parts identities satisfies `x·(B₂ − B₀) = 2·B₁` (`exact_B_relation`, and the
-   recursion branch does: `bintgs_recursion_satisfies_relation`), whereas the series branch
-   (`1e-6 < |x| ≤ 0.5`) misses it by exactly `−x⁷/11340 ≠ 0`: the code's `B_k` are truncated there.
-3. overlaps, equal exponents (then `beta = 0`): the `jcall = 2, 4, 6` branches reproduce the closed
-   forms obtained independently (symbolic integration of the normalised STO products in prolate
-   spheroidal coordinates, `vf/oracle_nddo.py` header): `overlap_1s1s_equal_zeta`,
-   `overlap_22_equal_zeta` (2s2s, 2pσ2s, 2s2pσ, 2pσ2pσ, 2pπ2pπ), `overlap_33_equal_zeta`.
-4. exchange of the two centres (equal principal quantum numbers): `local_swap_11`, `local_swap_22`,
-   `local_swap_33`: `S111, S221, S222` invariant, `S211 ↔ S121` (so that the molecular-frame entries
-   `(pσ|s)` and `(s|pσ)` change sign, the parity `(−1)^{l₁+l₂}` of the σ overlaps).
+   the integration-by-parts identities satisfies `x·(B₂ − B₀) = 2·B₁` (`exact_B_relation`; the recursion
+   branch does: `bintgs_recursion_satisfies_relation`), whereas the series branch (`1e-6 < |x| ≤ 0.5`)
+   misses it by exactly `−x⁷/11340 ≠ 0`: the code's `B_k` are truncated Maclaurin polynomials there.
+3. equal exponents: the `jcall = 2, 4, 6` branches reproduce closed forms obtained independently:
+   `overlap_1s1s_equal_zeta`, `overlap_22_equal_zeta`, `overlap_33_equal_zeta` (all five entries each).
+4. SPECIFICATION `stoSpec`: normalisation constants × angular constant × `(R/2)^{n₁+n₂+1}` × the
+   contraction of the MECHANICALLY expanded prolate-coordinate polynomial `stoPoly` with the tables.
+   `poly*_spec` (20 theorems: every polynomial the code writes is ± the mechanical expansion),
+   `pref*` (20 lemmas: every prefactor is the product of the normalisation/angular constants).
+5. `local_eq_spec_11/21/22/31/32/33`: for every `jcall` every entry of the molecular-frame factors
+   (`diFactors`) equals `stoSpec` on the tables the code computes; unset entries are zero.
+6. exchange of the two centres (equal principal quantum numbers): `local_swap_11/22/33`:
+   `S111, S221, S222` invariant, `S211 ↔ S121` (parity `(−1)^{l₁+l₂}` of the σ overlaps).
+
+What is NOT proved: that `A_k`, `B_k` ARE the integrals (only that they satisfy the integration-by-parts
+recurrences that determine the integrals given `A_0`, `B_0`), and nothing about floating point rounding;
+the Float instance of the model is tied to the Python by the driver ops `aintgs`, `bintgs`, `sto_local`,
+`sto_overlap` (bit-identical A/B tables, overlaps within 5e-15 on random inputs).
 -/
 namespace C06b
 open Overlap
@@ -170,6 +178,522 @@ theorem bintgs_series_violates_exact_recurrence {x : ℝ} (h1 : 1.0e-6 < |x|) (h
 
 example : (1.0e-6 : ℝ) < |(0.3:ℝ)| ∧ |(0.3:ℝ)| ≤ 0.5 := by
   rw [abs_of_pos (by norm_num)]; norm_num
+
+/-! ## 3. equal exponents: the closed forms
+
+`beta = 0`, so the `B` tables are the `x = 0` values.  The right-hand sides were obtained independently
+(symbolic integration of the normalised STO products in prolate spheroidal coordinates with sympy, checked
+against the quadrature oracle `vf/oracle_nddo.py` to 3e-14); orbitals on both centres oriented along common
+axes, centre j at `+R` on the local z axis (`diFactors` convention), `p = ζR`. -/
+
+lemma rpow_sq_eq {y : ℝ} (hy : 0 ≤ y) {e : ℝ} {n : ℕ} (h : 2 * e = n) :
+    (y * y) ^ e = y ^ n := by
+  rw [← sq, ← Real.rpow_natCast y 2, ← Real.rpow_mul hy, ← Real.rpow_natCast y n]
+  congr 1
+
+lemma rpow_half_mul_self {y : ℝ} (hy : 0 < y) {e : ℝ} {n : ℕ} (h : 2 * e = n) :
+    y ^ e * y ^ e = y ^ n := by
+  rw [← Real.rpow_add hy, ← Real.rpow_natCast y n]
+  congr 1; linarith
+
+/-- 1s–1s (`jcall = 2`) -/
+theorem overlap_1s1s_equal_zeta {ζ r : ℝ} (hζ : 0 < ζ) (hr : 0 < r) (zpa zpb : ℝ) :
+    (locR 2 ζ zpa ζ zpb r).s111 = Real.exp (-(ζ * r)) * (1 + ζ * r + (ζ * r) ^ 2 / 3) := by
+  have hp : ζ * r ≠ 0 := (mul_pos hζ hr).ne'
+  have hα : 1 / 2 * r * (ζ + ζ) = ζ * r := by ring
+  have e1 : (ζ * ζ * r ^ 2) ^ ((3:ℝ) / 2) = (ζ * r) ^ 3 := by
+    have : ζ * ζ * r ^ 2 = (ζ * r) * (ζ * r) := by ring
+    rw [this]; exact rpow_sq_eq (by positivity) (by norm_num)
+  simp only [locR, localOverlap, tables, setAB, aintgs, bintgs, poly11ss, absR, pwR, sub_self, mul_zero, abs_zero]
+  norm_num
+  rw [hα, e1]
+  field_simp
+  ring
+
+
+example : (0:ℝ) < 1.2 ∧ (0:ℝ) < 1.4 := by norm_num
+
+/-- equal exponents, both atoms in the second row (`jcall = 4`), `p = ζ R` -/
+theorem overlap_22_equal_zeta {ζ r : ℝ} (hζ : 0 < ζ) (hr : 0 < r) :
+    let p := ζ * r
+    let E := Real.exp (-p)
+    let S := diFactors (locR 4 ζ ζ ζ ζ r)
+    S.s111 = E * (1 + p + 4 * p ^ 2 / 9 + p ^ 3 / 9 + p ^ 4 / 45) ∧
+    S.s211 = E * (p / 2 + p ^ 2 / 2 + 7 * p ^ 3 / 30 + p ^ 4 / 15) / Real.sqrt 3 ∧
+    S.s121 = -(E * (p / 2 + p ^ 2 / 2 + 7 * p ^ 3 / 30 + p ^ 4 / 15) / Real.sqrt 3) ∧
+    S.s221 = E * (1 + p + p ^ 2 / 5 - 2 * p ^ 3 / 15 - p ^ 4 / 15) ∧
+    S.s222 = E * (1 + p + 2 * p ^ 2 / 5 + p ^ 3 / 15) := by
+  intro p E S
+  have hp : ζ * r ≠ 0 := (mul_pos hζ hr).ne'
+  have hr0 : r ≠ 0 := hr.ne'
+  have hz0 : ζ ≠ 0 := hζ.ne'
+  have h3 : Real.sqrt 3 ≠ 0 := by positivity
+  have hα : 1 / 2 * r * (ζ + ζ) = ζ * r := by ring
+  have e1 : (ζ * ζ) ^ ((5:ℝ) / 2) = ζ ^ 5 := rpow_sq_eq hζ.le (by norm_num)
+  refine ⟨?_, ?_, ?_, ?_, ?_⟩ <;>
+  · simp only [S, E, p, diFactors, locR, localOverlap, tables, setAB, aintgs, bintgs, poly22ss, poly22ps, poly22sp,
+      poly22sig, poly22pi, absR, pwR, sub_self, mul_zero, abs_zero]
+    norm_num
+    simp only [hα, e1]
+    field_simp
+    ring
+
+/-- equal exponents, both atoms in the third row (`jcall = 6`) -/
+theorem overlap_33_equal_zeta {ζ r : ℝ} (hζ : 0 < ζ) (hr : 0 < r) :
+    let p := ζ * r
+    let E := Real.exp (-p)
+    let S := diFactors (locR 6 ζ ζ ζ ζ r)
+    S.s111 = E * (1 + p + 7 * p ^ 2 / 15 + 2 * p ^ 3 / 15 + 2 * p ^ 4 / 75 + p ^ 5 / 225 + p ^ 6 / 1575) ∧
+    S.s211 = E * (p / 3 + p ^ 2 / 3 + 4 * p ^ 3 / 25 + 11 * p ^ 4 / 225 + 17 * p ^ 5 / 1575 + p ^ 6 / 525)
+               / Real.sqrt 3 ∧
+    S.s121 = -(E * (p / 3 + p ^ 2 / 3 + 4 * p ^ 3 / 25 + 11 * p ^ 4 / 225 + 17 * p ^ 5 / 1575 + p ^ 6 / 525)
+               / Real.sqrt 3) ∧
+    S.s221 = E * (1 + p + 9 * p ^ 2 / 25 + 2 * p ^ 3 / 75 - 34 * p ^ 4 / 1575 - 13 * p ^ 5 / 1575 - p ^ 6 / 525) ∧
+    S.s222 = E * (1 + p + 34 * p ^ 2 / 75 + 3 * p ^ 3 / 25 + 31 * p ^ 4 / 1575 + p ^ 5 / 525) := by
+  intro p E S
+  have hp : ζ * r ≠ 0 := (mul_pos hζ hr).ne'
+  have hr0 : r ≠ 0 := hr.ne'
+  have hz0 : ζ ≠ 0 := hζ.ne'
+  have h3 : Real.sqrt 3 ≠ 0 := by positivity
+  have hα : 1 / 2 * r * (ζ + ζ) = ζ * r := by ring
+  have e1 : (ζ * ζ) ^ ((7:ℝ) / 2) = ζ ^ 7 := rpow_sq_eq hζ.le (by norm_num)
+  have e2 : ζ ^ ((7:ℝ) / 2) * ζ ^ ((7:ℝ) / 2) = ζ ^ 7 := rpow_half_mul_self hζ (by norm_num)
+  refine ⟨?_, ?_, ?_, ?_, ?_⟩ <;>
+  · simp only [S, E, p, diFactors, locR, localOverlap, tables, setAB, aintgs, bintgs, poly33ss, poly33ps, poly33sp,
+      poly33sig, poly33pi, absR, pwR, sub_self, mul_zero, abs_zero]
+    norm_num
+    simp only [hα, e1, e2]
+    field_simp
+    ring
+
+/-! ## 4. SPECIFICATION: the overlap of two normalised real Slater orbitals in prolate spheroidal coordinates
+
+Orbital `(n l m)` with exponent `ζ`: `N r^{n-1} e^{-ζr} Y_{lm}`, `N² = (2ζ)^{2n+1}/(2n)!`, real harmonics
+`s = 1/√(4π)`, `p_σ = √(3/4π)·z/r`, `p_π = √(3/4π)·x/r`; centre 1 at the origin, centre 2 at `(0,0,R)`,
+both with the same axes.  With `r₁ = (R/2)(ξ+η)`, `r₂ = (R/2)(ξ−η)`, `z₁ = (R/2)(1+ξη)`, `z₂ = (R/2)(ξη−1)`,
+`ρ² = (R/2)²(ξ²−1)(1−η²)`, `dV = (R/2)³(ξ²−η²) dξ dη dφ` the product of the two orbitals times the volume
+element is `(R/2)^{n₁+n₂+1} · P(ξ,η) · e^{-αξ-βη}` with the polynomial
+`P = (ξ+η)^{n₁-1-l₁} (ξ−η)^{n₂-1-l₂} · [(1+ξη)^{l₁}(ξη−1)^{l₂}  or  (ξ²−1)(1−η²)] · (ξ²−η²)`,
+`α = R(ζ₁+ζ₂)/2`, `β = R(ζ₁−ζ₂)/2`; the φ integral gives `2π` (σ) or `π` (π).  Integrating the monomial
+`ξ^i η^j e^{-αξ-βη}` gives `A_i(α)·B_j(β)`: `contract`.  `stoPoly` builds `P` by MECHANICAL polynomial
+multiplication — no coefficient is typed in by hand. -/
+
+/-- polynomials in `(ξ, η)` as lists of monomials `(i, j, c)` = `c·ξ^i·η^j` -/
+abbrev Poly2 := List (ℕ × ℕ × ℤ)
+
+def pmul (p q : Poly2) : Poly2 :=
+  p.flatMap fun a => q.map fun b => (a.1 + b.1, a.2.1 + b.2.1, a.2.2 * b.2.2)
+
+def ppow (p : Poly2) : ℕ → Poly2
+  | 0 => [(0, 0, 1)]
+  | n + 1 => pmul p (ppow p n)
+
+def Aux.get (a : Aux ℝ) : ℕ → ℝ
+  | 0 => a.c0 | 1 => a.c1 | 2 => a.c2 | 3 => a.c3 | 4 => a.c4 | 5 => a.c5 | 6 => a.c6 | _ => 0
+
+/-- the linear functional `ξ^i η^j ↦ A_i·B_j` -/
+def contract (A B : Aux ℝ) (p : Poly2) : ℝ :=
+  (p.map fun t => (t.2.2 : ℝ) * Aux.get A t.1 * Aux.get B t.2.1).sum
+
+def pRA : Poly2 := [(1, 0, 1), (0, 1, 1)]       -- r₁/(R/2) = ξ + η
+def pRB : Poly2 := [(1, 0, 1), (0, 1, -1)]      -- r₂/(R/2) = ξ − η
+def pZA : Poly2 := [(0, 0, 1), (1, 1, 1)]       -- z₁/(R/2) = 1 + ξη
+def pZB : Poly2 := [(1, 1, 1), (0, 0, -1)]      -- z₂/(R/2) = ξη − 1
+def pRho2 : Poly2 := pmul [(2, 0, 1), (0, 0, -1)] [(0, 0, 1), (0, 2, -1)]   -- ρ²/(R/2)² = (ξ²−1)(1−η²)
+def pJac : Poly2 := [(2, 0, 1), (0, 2, -1)]     -- dV/((R/2)³ dξ dη dφ) = ξ² − η²
+
+def stoPoly (n1 l1 n2 l2 m : ℕ) : Poly2 :=
+  let radial := pmul (ppow pRA (n1 - 1 - l1)) (ppow pRB (n2 - 1 - l2))
+  let ang := if m = 0 then pmul (ppow pZA l1) (ppow pZB l2) else pRho2
+  pmul (pmul radial ang) pJac
+
+/-- `N = √((2ζ)^{2n+1}/(2n)!)` -/
+def stoNorm (n : ℕ) (ζ : ℝ) : ℝ := Real.sqrt ((2 * ζ) ^ (2 * n + 1) / ((2 * n).factorial : ℝ))
+
+/-- harmonics constants times the φ integral: `√((2l₁+1)(2l₂+1))/(4π)·2π` (σ), `3/(4π)·π` (π) -/
+def angFactor (l1 l2 m : ℕ) : ℝ :=
+  if m = 0 then Real.sqrt (((2 * l1 + 1) * (2 * l2 + 1) : ℕ)) / 2 else 3 / 4
+
+def specPref (n1 l1 n2 l2 m : ℕ) (ζ1 ζ2 R : ℝ) : ℝ :=
+  stoNorm n1 ζ1 * stoNorm n2 ζ2 * angFactor l1 l2 m * (R / 2) ^ (n1 + n2 + 1)
+
+/-- the overlap `⟨n₁l₁m, ζ₁ @ 0 | n₂l₂m, ζ₂ @ (0,0,R)⟩` given tables `A_i(α)`, `B_j(β)` -/
+def stoSpec (n1 l1 n2 l2 m : ℕ) (ζ1 ζ2 R : ℝ) (A B : Aux ℝ) : ℝ :=
+  specPref n1 l1 n2 l2 m ζ1 ζ2 R * contract A B (stoPoly n1 l1 n2 l2 m)
+
+lemma specPref_nonneg (n1 l1 n2 l2 m : ℕ) {ζ1 ζ2 R : ℝ} (hR : 0 ≤ R) : 0 ≤ specPref n1 l1 n2 l2 m ζ1 ζ2 R := by
+  unfold specPref stoNorm angFactor
+  split_ifs <;> positivity
+
+lemma specPref_sq (n1 l1 n2 l2 m : ℕ) {ζ1 ζ2 R : ℝ} (h1 : 0 ≤ ζ1) (h2 : 0 ≤ ζ2) :
+    specPref n1 l1 n2 l2 m ζ1 ζ2 R ^ 2 =
+      (2 * ζ1) ^ (2 * n1 + 1) / ((2 * n1).factorial : ℝ) * ((2 * ζ2) ^ (2 * n2 + 1) / ((2 * n2).factorial : ℝ))
+        * (if m = 0 then (((2 * l1 + 1) * (2 * l2 + 1) : ℕ) : ℝ) / 4 else 9 / 16) * (R / 2) ^ (2 * (n1 + n2 + 1)) := by
+  unfold specPref stoNorm angFactor
+  have a1 : 0 ≤ (2 * ζ1) ^ (2 * n1 + 1) / ((2 * n1).factorial : ℝ) := by positivity
+  have a2 : 0 ≤ (2 * ζ2) ^ (2 * n2 + 1) / ((2 * n2).factorial : ℝ) := by positivity
+  rw [mul_pow, mul_pow, mul_pow, Real.sq_sqrt a1, Real.sq_sqrt a2, ← pow_mul, mul_comm (n1 + n2 + 1) 2]
+  split_ifs
+  · rw [div_pow, Real.sq_sqrt (by positivity)]; norm_num
+  · norm_num
+
+lemma sq_rpow_half {z : ℝ} (hz : 0 ≤ z) {e : ℝ} {k : ℕ} (h : e * 2 = k) : (z ^ e) ^ 2 = z ^ k := by
+  rw [← Real.rpow_natCast (z ^ e) 2, ← Real.rpow_mul hz, ← Real.rpow_natCast z k]
+  congr 1
+
+lemma sq32 {z : ℝ} (hz : 0 ≤ z) : (z ^ ((3:ℝ) / 2)) ^ 2 = z ^ 3 := sq_rpow_half hz (k := 3) (by norm_num)
+lemma sq52 {z : ℝ} (hz : 0 ≤ z) : (z ^ ((5:ℝ) / 2)) ^ 2 = z ^ 5 := sq_rpow_half hz (k := 5) (by norm_num)
+lemma sq72 {z : ℝ} (hz : 0 ≤ z) : (z ^ ((7:ℝ) / 2)) ^ 2 = z ^ 7 := sq_rpow_half hz (k := 7) (by norm_num)
+lemma sqrt3_sq : Real.sqrt 3 ^ 2 = 3 := Real.sq_sqrt (by norm_num)
+lemma sqrt10_sq : Real.sqrt 10 ^ 2 = 10 := Real.sq_sqrt (by norm_num)
+lemma sqrt30_sq : Real.sqrt 30 ^ 2 = 30 := Real.sq_sqrt (by norm_num)
+
+lemma eq_of_sq {x y : ℝ} (hx : 0 ≤ x) (hy : 0 ≤ y) (h : x ^ 2 = y ^ 2) : x = y :=
+  (sq_eq_sq₀ hx hy).mp h
+
+/-! ### every polynomial the code writes is (±) the mechanical expansion -/
+
+macro "poly_tac" : tactic =>
+  `(tactic| (simp only [poly11ss, poly21ss, poly21ps, poly22ss, poly22ps, poly22sp, poly22sig, poly22pi, poly31ss,
+      poly31ps, poly32ss, poly32ps, poly32sp, poly32sig, poly32pi, poly33ss, poly33ps, poly33sp, poly33sig, poly33pi]
+             norm_num [contract, stoPoly, pmul, ppow, pRA, pRB, pZA, pZB, pRho2, pJac, Aux.get]
+             ring))
+
+theorem poly11ss_spec (A B : Aux ℝ) : poly11ss A B = contract A B (stoPoly 1 0 1 0 0) := by poly_tac
+theorem poly21ss_spec (A B : Aux ℝ) : poly21ss A B = contract A B (stoPoly 2 0 1 0 0) := by poly_tac
+theorem poly21ps_spec (A B : Aux ℝ) : poly21ps A B = contract A B (stoPoly 2 1 1 0 0) := by poly_tac
+theorem poly22ss_spec (A B : Aux ℝ) : poly22ss A B = contract A B (stoPoly 2 0 2 0 0) := by poly_tac
+theorem poly22ps_spec (A B : Aux ℝ) : poly22ps A B = contract A B (stoPoly 2 1 2 0 0) := by poly_tac
+theorem poly22sp_spec (A B : Aux ℝ) : poly22sp A B = -contract A B (stoPoly 2 0 2 1 0) := by poly_tac
+theorem poly22sig_spec (A B : Aux ℝ) : poly22sig A B = contract A B (stoPoly 2 1 2 1 0) := by poly_tac
+theorem poly22pi_spec (A B : Aux ℝ) : poly22pi A B = contract A B (stoPoly 2 1 2 1 1) := by poly_tac
+theorem poly31ss_spec (A B : Aux ℝ) : poly31ss A B = contract A B (stoPoly 3 0 1 0 0) := by poly_tac
+theorem poly31ps_spec (A B : Aux ℝ) : poly31ps A B = contract A B (stoPoly 3 1 1 0 0) := by poly_tac
+theorem poly32ss_spec (A B : Aux ℝ) : poly32ss A B = contract A B (stoPoly 3 0 2 0 0) := by poly_tac
+theorem poly32ps_spec (A B : Aux ℝ) : poly32ps A B = contract A B (stoPoly 3 1 2 0 0) := by poly_tac
+theorem poly32sp_spec (A B : Aux ℝ) : poly32sp A B = -contract A B (stoPoly 3 0 2 1 0) := by poly_tac
+theorem poly32sig_spec (A B : Aux ℝ) : poly32sig A B = -contract A B (stoPoly 3 1 2 1 0) := by poly_tac
+theorem poly32pi_spec (A B : Aux ℝ) : poly32pi A B = contract A B (stoPoly 3 1 2 1 1) := by poly_tac
+theorem poly33ss_spec (A B : Aux ℝ) : poly33ss A B = contract A B (stoPoly 3 0 3 0 0) := by poly_tac
+theorem poly33ps_spec (A B : Aux ℝ) : poly33ps A B = contract A B (stoPoly 3 1 3 0 0) := by poly_tac
+theorem poly33sp_spec (A B : Aux ℝ) : poly33sp A B = -contract A B (stoPoly 3 0 3 1 0) := by poly_tac
+theorem poly33sig_spec (A B : Aux ℝ) : poly33sig A B = -contract A B (stoPoly 3 1 3 1 0) := by poly_tac
+theorem poly33pi_spec (A B : Aux ℝ) : poly33pi A B = contract A B (stoPoly 3 1 3 1 1) := by poly_tac
+
+/-! ### every prefactor the code writes is the product of the two normalisation constants, the angular
+constant and `(R/2)^{n₁+n₂+1}` -/
+
+macro "pref_tac" hza:term "," hzb:term "," hr:term : tactic =>
+  `(tactic| (apply eq_of_sq (by positivity) (specPref_nonneg _ _ _ _ _ (le_of_lt $hr))
+             rw [specPref_sq _ _ _ _ _ (le_of_lt $hza) (le_of_lt $hzb)]
+             simp only [div_pow, mul_pow, sq32 (le_of_lt $hza), sq52 (le_of_lt $hza), sq72 (le_of_lt $hza), sq32 (le_of_lt $hzb),
+               sq52 (le_of_lt $hzb), sq72 (le_of_lt $hzb), sq52 (le_of_lt (mul_pos $hzb $hza)), sq72 (le_of_lt (mul_pos $hzb $hza)),
+               sq32 (le_of_lt (mul_pos (mul_pos $hza $hzb) (pow_pos $hr 2))), sqrt3_sq, sqrt10_sq, sqrt30_sq]
+             norm_num [Nat.factorial]
+             try ring))
+
+lemma pref11ss {za zb r : ℝ} (hza : 0 < za) (hzb : 0 < zb) (hr : 0 < r) :
+    (za * zb * r ^ 2) ^ ((3:ℝ) / 2) / 4 = specPref 1 0 1 0 0 za zb r := by
+  pref_tac hza, hzb, hr
+lemma pref21ss {za zb r : ℝ} (hza : 0 < za) (hzb : 0 < zb) (hr : 0 < r) :
+    zb ^ ((3:ℝ) / 2) * za ^ ((5:ℝ) / 2) * r ^ 4 / (Real.sqrt 3 * 8) = specPref 2 0 1 0 0 za zb r := by
+  pref_tac hza, hzb, hr
+lemma pref21ps {za zb r : ℝ} (hza : 0 < za) (hzb : 0 < zb) (hr : 0 < r) :
+    zb ^ ((3:ℝ) / 2) * za ^ ((5:ℝ) / 2) * r ^ 4 / 8 = specPref 2 1 1 0 0 za zb r := by
+  pref_tac hza, hzb, hr
+lemma pref22ss {za zb r : ℝ} (hza : 0 < za) (hzb : 0 < zb) (hr : 0 < r) :
+    (zb * za) ^ ((5:ℝ) / 2) * r ^ 5 / 48 = specPref 2 0 2 0 0 za zb r := by
+  pref_tac hza, hzb, hr
+lemma pref22ps {za zb r : ℝ} (hza : 0 < za) (hzb : 0 < zb) (hr : 0 < r) :
+    (zb * za) ^ ((5:ℝ) / 2) * r ^ 5 / (16 * Real.sqrt 3) = specPref 2 1 2 0 0 za zb r := by
+  pref_tac hza, hzb, hr
+lemma pref22sp {za zb r : ℝ} (hza : 0 < za) (hzb : 0 < zb) (hr : 0 < r) :
+    (zb * za) ^ ((5:ℝ) / 2) * r ^ 5 / (16 * Real.sqrt 3) = specPref 2 0 2 1 0 za zb r := by
+  pref_tac hza, hzb, hr
+lemma pref22sig {za zb r : ℝ} (hza : 0 < za) (hzb : 0 < zb) (hr : 0 < r) :
+    (zb * za) ^ ((5:ℝ) / 2) * r ^ 5 / 16 = specPref 2 1 2 1 0 za zb r := by
+  pref_tac hza, hzb, hr
+lemma pref22pi {za zb r : ℝ} (hza : 0 < za) (hzb : 0 < zb) (hr : 0 < r) :
+    (zb * za) ^ ((5:ℝ) / 2) * r ^ 5 / 32 = specPref 2 1 2 1 1 za zb r := by
+  pref_tac hza, hzb, hr
+lemma pref31ss {za zb r : ℝ} (hza : 0 < za) (hzb : 0 < zb) (hr : 0 < r) :
+    zb ^ ((3:ℝ) / 2) * za ^ ((7:ℝ) / 2) * r ^ 5 / (Real.sqrt 10 * 24) = specPref 3 0 1 0 0 za zb r := by
+  pref_tac hza, hzb, hr
+lemma pref31ps {za zb r : ℝ} (hza : 0 < za) (hzb : 0 < zb) (hr : 0 < r) :
+    zb ^ ((3:ℝ) / 2) * za ^ ((7:ℝ) / 2) * r ^ 5 / (8 * Real.sqrt 30) = specPref 3 1 1 0 0 za zb r := by
+  pref_tac hza, hzb, hr
+lemma pref32ss {za zb r : ℝ} (hza : 0 < za) (hzb : 0 < zb) (hr : 0 < r) :
+    zb ^ ((5:ℝ) / 2) * za ^ ((7:ℝ) / 2) * r ^ 6 / (Real.sqrt 30 * 48) = specPref 3 0 2 0 0 za zb r := by
+  pref_tac hza, hzb, hr
+lemma pref32ps {za zb r : ℝ} (hza : 0 < za) (hzb : 0 < zb) (hr : 0 < r) :
+    zb ^ ((5:ℝ) / 2) * za ^ ((7:ℝ) / 2) * r ^ 6 / (48 * Real.sqrt 10) = specPref 3 1 2 0 0 za zb r := by
+  pref_tac hza, hzb, hr
+lemma pref32sp {za zb r : ℝ} (hza : 0 < za) (hzb : 0 < zb) (hr : 0 < r) :
+    zb ^ ((5:ℝ) / 2) * za ^ ((7:ℝ) / 2) * r ^ 6 / (48 * Real.sqrt 10) = specPref 3 0 2 1 0 za zb r := by
+  pref_tac hza, hzb, hr
+lemma pref32sig {za zb r : ℝ} (hza : 0 < za) (hzb : 0 < zb) (hr : 0 < r) :
+    zb ^ ((5:ℝ) / 2) * za ^ ((7:ℝ) / 2) * r ^ 6 / (16 * Real.sqrt 30) = specPref 3 1 2 1 0 za zb r := by
+  pref_tac hza, hzb, hr
+lemma pref32pi {za zb r : ℝ} (hza : 0 < za) (hzb : 0 < zb) (hr : 0 < r) :
+    zb ^ ((5:ℝ) / 2) * za ^ ((7:ℝ) / 2) * r ^ 6 / (32 * Real.sqrt 30) = specPref 3 1 2 1 1 za zb r := by
+  pref_tac hza, hzb, hr
+lemma pref33ss {za zb r : ℝ} (hza : 0 < za) (hzb : 0 < zb) (hr : 0 < r) :
+    (zb * za) ^ ((7:ℝ) / 2) * r ^ 7 / 1440 = specPref 3 0 3 0 0 za zb r := by
+  pref_tac hza, hzb, hr
+lemma pref33ps {za zb r : ℝ} (hza : 0 < za) (hzb : 0 < zb) (hr : 0 < r) :
+    (zb * za) ^ ((7:ℝ) / 2) * r ^ 7 / (480 * Real.sqrt 3) = specPref 3 1 3 0 0 za zb r := by
+  pref_tac hza, hzb, hr
+lemma pref33sp {za zb r : ℝ} (hza : 0 < za) (hzb : 0 < zb) (hr : 0 < r) :
+    (zb * za) ^ ((7:ℝ) / 2) * r ^ 7 / (480 * Real.sqrt 3) = specPref 3 0 3 1 0 za zb r := by
+  pref_tac hza, hzb, hr
+lemma pref33sig {za zb r : ℝ} (hza : 0 < za) (hzb : 0 < zb) (hr : 0 < r) :
+    zb ^ ((7:ℝ) / 2) * za ^ ((7:ℝ) / 2) * r ^ 7 / 480 = specPref 3 1 3 1 0 za zb r := by
+  pref_tac hza, hzb, hr
+lemma pref33pi {za zb r : ℝ} (hza : 0 < za) (hzb : 0 < zb) (hr : 0 < r) :
+    zb ^ ((7:ℝ) / 2) * za ^ ((7:ℝ) / 2) * r ^ 7 / 960 = specPref 3 1 3 1 1 za zb r := by
+  pref_tac hza, hzb, hr
+
+/-! ## 5. the code equals the specification, branch by branch
+
+For every `jcall` and every entry: the factor with which the entry enters the molecular-frame block `di`
+(`diFactors`: `S111, S211, −S121, −S221, S222`) equals `stoSpec` evaluated on the SAME `A`/`B` tables the
+code computes (`tables`).  Together with `aintgs_recurrence`/`bintgs_recurrence` (the tables obey the
+integration-by-parts identities of the defining integrals, exactly for `A` and in the regime `|β| > 0.5`
+for `B`) this identifies the code's overlaps with the STO overlap integrals; the only deviation is the
+truncated `B` series (`bintgs_series_violates_exact_recurrence`).  Entries the Python leaves at zero
+(p functions on hydrogen) are zero here too. -/
+
+abbrev tabR (jcall : ℕ) (r z1 z2 : ℝ) : Aux ℝ × Aux ℝ := tables Real.exp absR pwR jcall r z1 z2
+
+macro "close_tac" : tactic => `(tactic| first | done | exact Or.inl trivial | ring1 | (left; simp only [pwR]; ring1))
+
+theorem local_eq_spec_11 {zsa zpa zsb zpb r : ℝ} (hzsa : 0 < zsa) (hzsb : 0 < zsb)
+    (hr : 0 < r) :
+    let S := diFactors (locR 2 zsa zpa zsb zpb r)
+    S.s111 = stoSpec 1 0 1 0 0 zsa zsb r (tabR 2 r zsa zsb).1 (tabR 2 r zsa zsb).2 ∧
+    S.s211 = 0 ∧
+    S.s121 = 0 ∧
+    S.s221 = 0 ∧
+    S.s222 = 0 := by
+  intro S
+  refine ⟨?_, ?_, ?_, ?_, ?_⟩
+  · simp only [S, diFactors, locR, localOverlap, stoSpec, tabR, ← pref11ss hzsa hzsb hr, poly11ss_spec]
+    norm_num
+    close_tac
+  · simp only [S, diFactors, locR, localOverlap]
+    norm_num
+  · simp only [S, diFactors, locR, localOverlap]
+    norm_num
+  · simp only [S, diFactors, locR, localOverlap]
+    norm_num
+  · simp only [S, diFactors, locR, localOverlap]
+    norm_num
+
+theorem local_eq_spec_21 {zsa zpa zsb zpb r : ℝ} (hzsa : 0 < zsa) (hzpa : 0 < zpa) (hzsb : 0 < zsb)
+    (hr : 0 < r) :
+    let S := diFactors (locR 3 zsa zpa zsb zpb r)
+    S.s111 = stoSpec 2 0 1 0 0 zsa zsb r (tabR 3 r zsa zsb).1 (tabR 3 r zsa zsb).2 ∧
+    S.s211 = stoSpec 2 1 1 0 0 zpa zsb r (tabR 3 r zpa zsb).1 (tabR 3 r zpa zsb).2 ∧
+    S.s121 = 0 ∧
+    S.s221 = 0 ∧
+    S.s222 = 0 := by
+  intro S
+  refine ⟨?_, ?_, ?_, ?_, ?_⟩
+  · simp only [S, diFactors, locR, localOverlap, stoSpec, tabR, ← pref21ss hzsa hzsb hr, poly21ss_spec]
+    norm_num
+    close_tac
+  · simp only [S, diFactors, locR, localOverlap, stoSpec, tabR, ← pref21ps hzpa hzsb hr, poly21ps_spec]
+    norm_num
+    close_tac
+  · simp only [S, diFactors, locR, localOverlap]
+    norm_num
+  · simp only [S, diFactors, locR, localOverlap]
+    norm_num
+  · simp only [S, diFactors, locR, localOverlap]
+    norm_num
+
+theorem local_eq_spec_22 {zsa zpa zsb zpb r : ℝ} (hzsa : 0 < zsa) (hzpa : 0 < zpa) (hzsb : 0 < zsb) (hzpb : 0 < zpb)
+    (hr : 0 < r) :
+    let S := diFactors (locR 4 zsa zpa zsb zpb r)
+    S.s111 = stoSpec 2 0 2 0 0 zsa zsb r (tabR 4 r zsa zsb).1 (tabR 4 r zsa zsb).2 ∧
+    S.s211 = stoSpec 2 1 2 0 0 zpa zsb r (tabR 4 r zpa zsb).1 (tabR 4 r zpa zsb).2 ∧
+    S.s121 = stoSpec 2 0 2 1 0 zsa zpb r (tabR 4 r zsa zpb).1 (tabR 4 r zsa zpb).2 ∧
+    S.s221 = stoSpec 2 1 2 1 0 zpa zpb r (tabR 4 r zpa zpb).1 (tabR 4 r zpa zpb).2 ∧
+    S.s222 = stoSpec 2 1 2 1 1 zpa zpb r (tabR 4 r zpa zpb).1 (tabR 4 r zpa zpb).2 := by
+  intro S
+  refine ⟨?_, ?_, ?_, ?_, ?_⟩
+  · simp only [S, diFactors, locR, localOverlap, stoSpec, tabR, ← pref22ss hzsa hzsb hr, poly22ss_spec]
+    norm_num
+    close_tac
+  · simp only [S, diFactors, locR, localOverlap, stoSpec, tabR, ← pref22ps hzpa hzsb hr, poly22ps_spec]
+    norm_num
+    close_tac
+  · simp only [S, diFactors, locR, localOverlap, stoSpec, tabR, ← pref22sp hzsa hzpb hr, poly22sp_spec]
+    norm_num
+    close_tac
+  · simp only [S, diFactors, locR, localOverlap, stoSpec, tabR, ← pref22sig hzpa hzpb hr, poly22sig_spec]
+    norm_num
+  · simp only [S, diFactors, locR, localOverlap, stoSpec, tabR, ← pref22pi hzpa hzpb hr, poly22pi_spec]
+    norm_num
+    close_tac
+
+theorem local_eq_spec_31 {zsa zpa zsb zpb r : ℝ} (hzsa : 0 < zsa) (hzpa : 0 < zpa) (hzsb : 0 < zsb)
+    (hr : 0 < r) :
+    let S := diFactors (locR 431 zsa zpa zsb zpb r)
+    S.s111 = stoSpec 3 0 1 0 0 zsa zsb r (tabR 431 r zsa zsb).1 (tabR 431 r zsa zsb).2 ∧
+    S.s211 = stoSpec 3 1 1 0 0 zpa zsb r (tabR 431 r zpa zsb).1 (tabR 431 r zpa zsb).2 ∧
+    S.s121 = 0 ∧
+    S.s221 = 0 ∧
+    S.s222 = 0 := by
+  intro S
+  refine ⟨?_, ?_, ?_, ?_, ?_⟩
+  · simp only [S, diFactors, locR, localOverlap, stoSpec, tabR, ← pref31ss hzsa hzsb hr, poly31ss_spec]
+    norm_num
+    close_tac
+  · simp only [S, diFactors, locR, localOverlap, stoSpec, tabR, ← pref31ps hzpa hzsb hr, poly31ps_spec]
+    norm_num
+    close_tac
+  · simp only [S, diFactors, locR, localOverlap]
+    norm_num
+  · simp only [S, diFactors, locR, localOverlap]
+    norm_num
+  · simp only [S, diFactors, locR, localOverlap]
+    norm_num
+
+theorem local_eq_spec_32 {zsa zpa zsb zpb r : ℝ} (hzsa : 0 < zsa) (hzpa : 0 < zpa) (hzsb : 0 < zsb) (hzpb : 0 < zpb)
+    (hr : 0 < r) :
+    let S := diFactors (locR 5 zsa zpa zsb zpb r)
+    S.s111 = stoSpec 3 0 2 0 0 zsa zsb r (tabR 5 r zsa zsb).1 (tabR 5 r zsa zsb).2 ∧
+    S.s211 = stoSpec 3 1 2 0 0 zpa zsb r (tabR 5 r zpa zsb).1 (tabR 5 r zpa zsb).2 ∧
+    S.s121 = stoSpec 3 0 2 1 0 zsa zpb r (tabR 5 r zsa zpb).1 (tabR 5 r zsa zpb).2 ∧
+    S.s221 = stoSpec 3 1 2 1 0 zpa zpb r (tabR 5 r zpa zpb).1 (tabR 5 r zpa zpb).2 ∧
+    S.s222 = stoSpec 3 1 2 1 1 zpa zpb r (tabR 5 r zpa zpb).1 (tabR 5 r zpa zpb).2 := by
+  intro S
+  refine ⟨?_, ?_, ?_, ?_, ?_⟩
+  · simp only [S, diFactors, locR, localOverlap, stoSpec, tabR, ← pref32ss hzsa hzsb hr, poly32ss_spec]
+    norm_num
+    close_tac
+  · simp only [S, diFactors, locR, localOverlap, stoSpec, tabR, ← pref32ps hzpa hzsb hr, poly32ps_spec]
+    norm_num
+    close_tac
+  · simp only [S, diFactors, locR, localOverlap, stoSpec, tabR, ← pref32sp hzsa hzpb hr, poly32sp_spec]
+    norm_num
+    close_tac
+  · simp only [S, diFactors, locR, localOverlap, stoSpec, tabR, ← pref32sig hzpa hzpb hr, poly32sig_spec]
+    norm_num
+    close_tac
+  · simp only [S, diFactors, locR, localOverlap, stoSpec, tabR, ← pref32pi hzpa hzpb hr, poly32pi_spec]
+    norm_num
+    close_tac
+
+theorem local_eq_spec_33 {zsa zpa zsb zpb r : ℝ} (hzsa : 0 < zsa) (hzpa : 0 < zpa) (hzsb : 0 < zsb) (hzpb : 0 < zpb)
+    (hr : 0 < r) :
+    let S := diFactors (locR 6 zsa zpa zsb zpb r)
+    S.s111 = stoSpec 3 0 3 0 0 zsa zsb r (tabR 6 r zsa zsb).1 (tabR 6 r zsa zsb).2 ∧
+    S.s211 = stoSpec 3 1 3 0 0 zpa zsb r (tabR 6 r zpa zsb).1 (tabR 6 r zpa zsb).2 ∧
+    S.s121 = stoSpec 3 0 3 1 0 zsa zpb r (tabR 6 r zsa zpb).1 (tabR 6 r zsa zpb).2 ∧
+    S.s221 = stoSpec 3 1 3 1 0 zpa zpb r (tabR 6 r zpa zpb).1 (tabR 6 r zpa zpb).2 ∧
+    S.s222 = stoSpec 3 1 3 1 1 zpa zpb r (tabR 6 r zpa zpb).1 (tabR 6 r zpa zpb).2 := by
+  intro S
+  refine ⟨?_, ?_, ?_, ?_, ?_⟩
+  · simp only [S, diFactors, locR, localOverlap, stoSpec, tabR, ← pref33ss hzsa hzsb hr, poly33ss_spec]
+    norm_num
+    close_tac
+  · simp only [S, diFactors, locR, localOverlap, stoSpec, tabR, ← pref33ps hzpa hzsb hr, poly33ps_spec]
+    norm_num
+    close_tac
+  · simp only [S, diFactors, locR, localOverlap, stoSpec, tabR, ← pref33sp hzsa hzpb hr, poly33sp_spec]
+    norm_num
+    close_tac
+  · simp only [S, diFactors, locR, localOverlap, stoSpec, tabR, ← pref33sig hzpa hzpb hr, poly33sig_spec]
+    norm_num
+    close_tac
+  · simp only [S, diFactors, locR, localOverlap, stoSpec, tabR, ← pref33pi hzpa hzpb hr, poly33pi_spec]
+    norm_num
+    close_tac
+
+
+example : (0:ℝ) < 1.8 ∧ (0:ℝ) < 2.4 ∧ (0:ℝ) < 0.9 := by norm_num
+
+/-! ## 6. exchange of the two centres (equal principal quantum numbers) -/
+
+/-- exchanging the exponents: `alpha` is unchanged, `beta` changes sign, so `A` is unchanged and
+    `B_k` picks up `(−1)^k` -/
+lemma tables_swap (jcall : ℕ) (r z1 z2 : ℝ) :
+    (tabR jcall r z2 z1).1 = (tabR jcall r z1 z2).1 ∧
+    (tabR jcall r z2 z1).2.c0 = (tabR jcall r z1 z2).2.c0 ∧
+    (tabR jcall r z2 z1).2.c1 = -(tabR jcall r z1 z2).2.c1 ∧
+    (tabR jcall r z2 z1).2.c2 = (tabR jcall r z1 z2).2.c2 ∧
+    (tabR jcall r z2 z1).2.c3 = -(tabR jcall r z1 z2).2.c3 ∧
+    (tabR jcall r z2 z1).2.c4 = (tabR jcall r z1 z2).2.c4 ∧
+    (tabR jcall r z2 z1).2.c5 = -(tabR jcall r z1 z2).2.c5 ∧
+    (tabR jcall r z2 z1).2.c6 = (tabR jcall r z1 z2).2.c6 := by
+  have hb : (0.5:ℝ) * r * (z2 - z1) = -(0.5 * r * (z1 - z2)) := by ring
+  simp only [tabR, tables, setAB, add_comm z2 z1, hb]
+  exact ⟨trivial, bintgs_parity _⟩
+
+macro "swap_close" : tactic =>
+  `(tactic| first | done | ring1 | simp only [true_or, or_true] | (left; ring1) | (left; left; ring1))
+
+set_option linter.unusedSimpArgs false in
+/-- H–H -/
+theorem local_swap_11 (zsa zpa zsb zpb r : ℝ) :
+    let S := locR 2 zsa zpa zsb zpb r
+    let S' := locR 2 zsb zpb zsa zpa r
+    S'.s111 = S.s111 ∧ S'.s211 = S.s121 ∧ S'.s121 = S.s211 ∧ S'.s221 = S.s221 ∧ S'.s222 = S.s222 := by
+  intro S S'
+  obtain ⟨a1, b10, b11, b12, b13, b14, b15, b16⟩ := tables_swap 2 r zsa zsb
+  obtain ⟨a2, b20, b21, b22, b23, b24, b25, b26⟩ := tables_swap 2 r zpa zsb
+  obtain ⟨a3, b30, b31, b32, b33, b34, b35, b36⟩ := tables_swap 2 r zsa zpb
+  obtain ⟨a4, b40, b41, b42, b43, b44, b45, b46⟩ := tables_swap 2 r zpa zpb
+  simp only [tabR] at a1 b10 b11 b12 b13 b14 b15 b16 a2 b20 b21 b22 b23 b24 b25 b26 a3 b30 b31 b32 b33 b34 b35 b36 a4 b40 b41 b42 b43 b44 b45 b46
+  refine ⟨?_, ?_, ?_, ?_, ?_⟩ <;>
+  · simp only [S, S', locR, localOverlap, poly11ss, poly22ss, poly22ps, poly22sp, poly22sig, poly22pi, poly33ss,
+      poly33ps, poly33sp, poly33sig, poly33pi, a1, b10, b11, b12, b13, b14, b15, b16, a2, b20, b21, b22, b23, b24,
+      b25, b26, a3, b30, b31, b32, b33, b34, b35, b36, a4, b40, b41, b42, b43, b44, b45, b46,
+      mul_comm zsa zsb, mul_comm zpa zsb, mul_comm zsa zpb, mul_comm zpa zpb]
+    norm_num
+
+set_option linter.unusedSimpArgs false in
+/-- second row – second row: `S211 ↔ S121`, the others invariant; in the molecular frame
+    `(pσ|s)` of the exchanged pair is `−(s|pσ)` of the original one: parity `(−1)^{l₁+l₂}` -/
+theorem local_swap_22 (zsa zpa zsb zpb r : ℝ) :
+    let S := locR 4 zsa zpa zsb zpb r
+    let S' := locR 4 zsb zpb zsa zpa r
+    S'.s111 = S.s111 ∧ S'.s211 = S.s121 ∧ S'.s121 = S.s211 ∧ S'.s221 = S.s221 ∧ S'.s222 = S.s222 := by
+  intro S S'
+  obtain ⟨a1, b10, b11, b12, b13, b14, b15, b16⟩ := tables_swap 4 r zsa zsb
+  obtain ⟨a2, b20, b21, b22, b23, b24, b25, b26⟩ := tables_swap 4 r zpa zsb
+  obtain ⟨a3, b30, b31, b32, b33, b34, b35, b36⟩ := tables_swap 4 r zsa zpb
+  obtain ⟨a4, b40, b41, b42, b43, b44, b45, b46⟩ := tables_swap 4 r zpa zpb
+  simp only [tabR] at a1 b10 b11 b12 b13 b14 b15 b16 a2 b20 b21 b22 b23 b24 b25 b26 a3 b30 b31 b32 b33 b34 b35 b36 a4 b40 b41 b42 b43 b44 b45 b46
+  refine ⟨?_, ?_, ?_, ?_, ?_⟩ <;>
+  · simp only [S, S', locR, localOverlap, poly11ss, poly22ss, poly22ps, poly22sp, poly22sig, poly22pi, poly33ss,
+      poly33ps, poly33sp, poly33sig, poly33pi, a1, b10, b11, b12, b13, b14, b15, b16, a2, b20, b21, b22, b23, b24,
+      b25, b26, a3, b30, b31, b32, b33, b34, b35, b36, a4, b40, b41, b42, b43, b44, b45, b46,
+      mul_comm zsa zsb, mul_comm zpa zsb, mul_comm zsa zpb, mul_comm zpa zpb]
+    norm_num
+    swap_close
+
+set_option linter.unusedSimpArgs false in
+/-- third row – third row -/
+theorem local_swap_33 (zsa zpa zsb zpb r : ℝ) :
+    let S := locR 6 zsa zpa zsb zpb r
+    let S' := locR 6 zsb zpb zsa zpa r
+    S'.s111 = S.s111 ∧ S'.s211 = S.s121 ∧ S'.s121 = S.s211 ∧ S'.s221 = S.s221 ∧ S'.s222 = S.s222 := by
+  intro S S'
+  obtain ⟨a1, b10, b11, b12, b13, b14, b15, b16⟩ := tables_swap 6 r zsa zsb
+  obtain ⟨a2, b20, b21, b22, b23, b24, b25, b26⟩ := tables_swap 6 r zpa zsb
+  obtain ⟨a3, b30, b31, b32, b33, b34, b35, b36⟩ := tables_swap 6 r zsa zpb
+  obtain ⟨a4, b40, b41, b42, b43, b44, b45, b46⟩ := tables_swap 6 r zpa zpb
+  simp only [tabR] at a1 b10 b11 b12 b13 b14 b15 b16 a2 b20 b21 b22 b23 b24 b25 b26 a3 b30 b31 b32 b33 b34 b35 b36 a4 b40 b41 b42 b43 b44 b45 b46
+  refine ⟨?_, ?_, ?_, ?_, ?_⟩ <;>
+  · simp only [S, S', locR, localOverlap, poly11ss, poly22ss, poly22ps, poly22sp, poly22sig, poly22pi, poly33ss,
+      poly33ps, poly33sp, poly33sig, poly33pi, a1, b10, b11, b12, b13, b14, b15, b16, a2, b20, b21, b22, b23, b24,
+      b25, b26, a3, b30, b31, b32, b33, b34, b35, b36, a4, b40, b41, b42, b43, b44, b45, b46,
+      mul_comm zsa zsb, mul_comm zpa zsb, mul_comm zsa zpb, mul_comm zpa zpb]
+    norm_num
+    swap_close
 
 end
 
